@@ -192,6 +192,46 @@ def simulate(case, close_at, want_blocks=True):
         obs["peer_oids"] = [sim.oid(x) for x in (zb, zb.out_queue, zb.out_delay_queue, zb.engine, zb.engine.protocols[0])]
         t_start = sim.now()
         obs["t_start"] = t_start
+        if case.get("tie_first"):
+            # the order of timers due in the same iteration is unspecified in asyncio: choose it (within the clock resolution)
+            import heapq
+            loop_ = sim.loop
+            orig_once = loop_._run_once
+
+            def is_a_cleanup(h_):
+                cb_ = h_._callback
+                return getattr(cb_, "__self__", None) is za.engine and "cache_cleanup" in getattr(cb_, "__name__", "")
+
+            def once():
+                sched = loop_._scheduled
+                live = [h_ for h_ in sched if not h_._cancelled]
+                if case["tie_first"] == "close" and loop_._ready:
+                    # real time passes while callbacks run: a timer that is due within the next millisecond may become due
+                    # while something is still queued -- it is then appended *behind* what is queued (here: the close's step)
+                    for h_ in live:
+                        if is_a_cleanup(h_) and 0 < round(h_._when * 1000) - loop_.ms <= 1 and any(
+                                "async_close" in repr(getattr(r_, "_callback", "")) or "async_close" in repr(getattr(r_, "_args", "")) for r_ in loop_._ready):
+                            loop_.ms = round(h_._when * 1000)
+                if len(live) > 1:
+                    w0 = min(round(h_._when * 1000) for h_ in live)
+                    same = [h_ for h_ in live if round(h_._when * 1000) == w0]
+                    if len(same) > 1:
+                        for h_ in same:
+                            first = is_a_cleanup(h_) == (case["tie_first"] == "cleanup")
+                            h_._when = w0 / 1000.0 + (0.0 if first else 2e-10)
+                        heapq.heapify(sched)
+                return orig_once()
+
+            loop_._run_once = once
+        if case.get("raw_listener"):
+            class Raw:
+                def async_update_records(self, zc_, now, records):
+                    cb("raw", "update_records", len(records))
+
+                def async_update_records_complete(self):
+                    pass
+
+            za.async_add_listener(Raw(), None)
         sim.loop.set_exception_handler(lambda l, ctx: obs["errors"].append([sim.now(), str(ctx.get("exception") or ctx.get("message"))[:200]]))
 
         def on_send(t, srch, data, addr):
@@ -289,7 +329,10 @@ def simulate(case, close_at, want_blocks=True):
             await aza.async_close()
             await zb._async_close()
             return
-        await sim.sleep_until(t_start + close_at)
+        if case.get("close_abs") is not None:
+            await sim.sleep_until(case["close_abs"])
+        else:
+            await sim.sleep_until(t_start + close_at)
         obs["marks"]["close_called"] = sim.now()
         stask.cancel()   # API calls after the close are the caller's business, not "in progress" work
         obs["registry_at_close"] = sorted(i.name for i in za.registry.async_get_service_infos())
@@ -439,6 +482,28 @@ def simulate(case, close_at, want_blocks=True):
     if want_blocks:
         obs["blocks"] = sim.events
     return obs
+
+
+def gen_aligned_case(seed, idx):
+    """the step in which the close shuts the engine down falls into the loop iteration in which the periodic cache
+    cleanup is due (10 s after start-up, then every 10 s), in either order; listeners that are never cancelled are
+    watched for hours afterwards while the cached records of the peer expire"""
+    rng = C.rng_for(seed, "c17-aligned", idx)
+    registered = rng.random() < 0.75
+    acts = [{"t": 10, "op": "browse-untracked", "type": TB, "handlers": rng.random() < 0.5}]
+    if registered:
+        acts.append({"t": 0, "op": "register", "i": 0, "allow": False})
+    if rng.random() < 0.4:
+        acts.append({"t": 300, "op": "browse-tracked", "type": TB})
+    k = rng.choice([1, 1, 2])
+    return {"seed": seed, "idx": idx, "acts": sorted(acts, key=lambda a_: a_["t"]), "horizon": 10000 * k + 500, "maxdelay": rng.choice([0, 5]),
+            "peer_period": 410, "peer_tc": False, "close_pick": 0.0, "close_jitter": 0,
+            # absolute instant of the close call: the engine step of the close (third goodbye + shutdown, 250 ms after the call when
+            # something is registered; the call itself otherwise) lands on the cleanup deadline, or 1 ms beside it
+            "close_abs": 10000 * k - (250 if registered else 0) + rng.choice([0, 0, -1, -1, -1, 1]),
+            "tie_first": rng.choice(["close", "close", "cleanup"]), "raw_listener": True,
+            "late_action": None, "late_at": 0, "second_close_after": rng.choice([5, 600000]), "tail": 7200000,
+            "listen_socket": rng.random() < 0.6, "addr_mode": "same", "server_mode": "shared", "extra_closes": [], "cancel_first_at": None}
 
 
 def gen_early_case(seed, idx):
@@ -816,8 +881,10 @@ def pick_close_time(case, times):
 
 
 def run_case(res, case, ctx, acc):
-    dry = simulate(case, None)
     close_at = case.get("close_at")
+    if case.get("close_abs") is not None:
+        close_at = 0
+    dry = simulate(case, None) if close_at is None else None
     if close_at is None:
         close_at = pick_close_time(case, [t for t in dry["block_times"] if t <= case["horizon"]])
     obs = simulate(case, close_at)
@@ -915,10 +982,14 @@ def run(ctx):
     # the part of the quantifier that needs real threads: close() from non-loop threads, the thread-based ServiceBrowser
     from . import c17_threads
     c17_threads.run(res, ctx, violate_limited)
-    n = C.Budget(ctx["tier"], 150, 4000).n
+    n = C.Budget(ctx["tier"], 120, 4000).n
     if ctx["widened"]:
         n = int(n * 1.5)
     for idx in range(n):
+        if idx % 8 == 3:
+            run_case(res, gen_aligned_case(ctx["seed"], idx), ctx, acc)
+            res.count("aligned-with-cleanup-deadline")
+            continue
         if idx % 8 == 5:
             run_early_case(res, gen_early_case(ctx["seed"], idx), ctx, acc)
             continue
